@@ -225,7 +225,8 @@ structure Sys where
 def hasMsg (os : List Out) : Bool := os.any fun o => match o with | .msg _ _ => true | _ => false
 
 /-- the request has been forwarded: the upstream reader now expects a response head.  (Nothing is drained here: under
-    causality nothing is buffered on an idle upstream connection — the real code closes it when something arrives.) -/
+    causality nothing is buffered on an idle upstream connection — the real code closes it when something arrives.)
+    The `| _ => c` branch is a totalising default; `Props.C02.expect_only_when_idle` shows it is never taken under `Inv`. -/
 def expect (c : St) : St :=
   match c.phase with
   | .wait => ⟨.head, c.buf⟩
